@@ -33,14 +33,14 @@ DEV_ITER = "iterator-enabled-from-template"
 DEV_ERR = "iter-shared-err"
 DEV_MASK = "enabled-error-masked"
 
-INVS = "Inv_Shape Inv_NoDisabled Inv_NoEmpty Inv_Poison Inv_DevErr Inv_DevSame Inv_MaskOnlyErr Inv_Paths Inv_Order Inv_Bound Inv_Complete Inv_NestedPerOuter"
+INVS = "Inv_Shape Inv_NoDisabled Inv_NoEmpty Inv_Poison Inv_DevErr Inv_DevSame Inv_MaskOnlyErr Inv_Paths Inv_Order Inv_Bound Inv_Complete Inv_NestedPerOuter Inv_InnermostWins"
 
 
 def tset(xs):
     return "{" + ", ".join('"%s"' % x for x in xs) + "}"
 
 
-def cfg_gen(maxnodes, maxdepth, kinds, fors, ens, vars_, xs, subs, poison, roots, uvs, invs=True):
+def cfg_gen(maxnodes, maxdepth, kinds, fors, ens, vars_, xs, subs, poison, roots, uvs, shadow=("fresh",), invs=True):
     return """SPECIFICATION GenSpec
 CONSTANTS
   MaxNodes = %d
@@ -54,10 +54,11 @@ CONSTANTS
   AllowPoison = %s
   RootKinds = %s
   UvKinds = %s
+  ShadowKinds = %s
 %s
 CHECK_DEADLOCK FALSE
 """ % (maxnodes, maxdepth, tset(kinds), tset(fors), tset(ens), tset(vars_), tset(xs), tset(subs),
-       "TRUE" if poison else "FALSE", tset(roots), tset(uvs), ("INVARIANTS " + INVS) if invs else "")
+       "TRUE" if poison else "FALSE", tset(roots), tset(uvs), tset(shadow), ("INVARIANTS " + INVS) if invs else "")
 
 
 def cfg_err(n, fails, shared):
@@ -107,6 +108,13 @@ SLICES_QUICK = [
     # per outer element a different inner range, of different lengths, one empty
     ("nested", 3, 2, ["agg", "task"], ["labc", "be02", "dep", "beE", "bBe"], ["T", "iteq"], ["none"], ["none"], [], False,
      ["cards"], ["none"]),
+    # shadowing: the iteration variable's NAME is already defined in an enclosing scope - a nested iterator reusing the
+    # enclosing iterator's variable name (template roles are aggregators with descendants that reference the variable) ...
+    ("shadow", 4, 3, ["agg", "task"], ["none", "lab"], ["T"], ["none"], ["none"], [], False, ["flag"], ["none"], ["same"]),
+    # ... or vars / defaults of the root or of a role (the template role itself included) defining that name; names,
+    # constraints and nested ranges inside reference the variable
+    ("shadowv", 3, 2, ["agg", "task"], ["none", "lab", "dep"], ["T"], ["none", "itx"], ["cons"], [], False,
+     ["itdef", "itcards"], ["none"]),
 ]
 
 SLICES_THOROUGH = [
@@ -127,14 +135,18 @@ SLICES_THOROUGH = [
      ["none"], [], False, ["cards", "cardsab"], ["none"]),
     ("nested4", 4, 3, ["agg", "task"], ["none", "labc", "be02", "dep", "beE", "bBe"], ["T"], ["none"], ["none"], [], False,
      ["cards"], ["none"]),
+    ("shadow4", 4, 3, ["agg", "task"], ["none", "lab", "dep"], ["T"], ["none"], ["none", "cons"], [], False,
+     ["cards"], ["none"], ["same", "fresh"]),
+    ("shadowv4", 4, 3, ["agg", "task"], ["none", "lab"], ["T"], ["none", "itx"], ["cons"], [], False,
+     ["itdef", "itcards"], ["none"], ["same", "fresh"]),
     ("incl3", 3, 2, ["agg", "inc"], ["none", "lb"], ["T", "iteq"], ["none", "flagit"], ["none"], ["s1", "s2", "s3", "s5"], False,
      ["flag"], ["none", "flagoff"]),
 ]
 
 # random larger templates (tlc -simulate): everything allowed
 SIM = (7, 3, ALLK, ["none", "lab", "labc", "lb", "le", "be12", "be21", "be02", "var", "dep", "beE", "bBe"], ["T", "F", "flagon", "flagoff", "iteq", "itne"],
-       ["none", "flagoff", "flagit"], ["none", "hook", "cons", "chan"], ["s1", "s2", "s3", "s4", "s5", "smissing"], True,
-       ["plain", "flag", "lst", "both", "cards", "cardsab"], ["none", "flagoff", "lstb", "lstbad"])
+       ["none", "flagoff", "flagit", "itx"], ["none", "hook", "cons", "chan"], ["s1", "s2", "s3", "s4", "s5", "smissing"], True,
+       ["plain", "flag", "lst", "both", "cards", "cardsab", "itvar", "itdef", "itcards"], ["none", "flagoff", "lstb", "lstbad"], ["fresh", "same"])
 
 
 def ptlc(ctx, tag, module, cfg_text, workers=2, extra=None, timeout=1200):
@@ -256,7 +268,7 @@ def run(ctx):
         with open(ctx.replay) as fh:
             rp = json.load(fh)["replay"]
         slices = [("catalogue", 1, 1, ["task"], ["none"], ["T"], ["none"], ["none"], [], False, ["plain"], ["none"])]
-    nsim = 1 if ctx.replay else (15 if quick else 250)
+    nsim = 1 if ctx.replay else (25 if quick else 250)
     pool = ThreadPoolExecutor(max_workers=max(2, min(nw, 12)))
     wk = 2 if quick else max(2, min(nw // 2, 6))
     fut = {}
@@ -267,7 +279,18 @@ def run(ctx):
         fut["err_c"] = pool.submit(ptlc, ctx, "err_c", "WorkflowLoadErr", cfg_err(3, [2], False), 2)
     for sl in slices:
         fut["slice_" + sl[0]] = pool.submit(ptlc, ctx, "slice_" + sl[0], "WorkflowLoadGen", cfg_gen(*sl[1:]), wk, ["-dump", "states"])
-    fut["sim"] = pool.submit(ptlc, ctx, "sim", "WorkflowLoadGen", cfg_gen(*SIM, invs=False), 1,
+    sim = SIM
+    if quick:
+        # TLC enumerates all successors of a state to pick one: the quick tier simulates over a seeded sub-vocabulary
+        rs_ = random.Random(ctx.seed * 7 + 3)
+
+        def pick(xs, n, keep):
+            rest = [x for x in xs if x not in keep]
+            rs_.shuffle(rest)
+            return list(keep) + rest[:max(0, n - len(keep))]
+        sim = (SIM[0], SIM[1], SIM[2], pick(SIM[3], 6, ["none"]), pick(SIM[4], 4, ["T"]), pick(SIM[5], 3, ["none"]),
+               pick(SIM[6], 3, ["none"]), pick(SIM[7], 3, []), SIM[8], pick(SIM[9], 3, []), pick(SIM[10], 2, ["none"]), SIM[11])
+    fut["sim"] = pool.submit(ptlc, ctx, "sim", "WorkflowLoadGen", cfg_gen(*sim, invs=False), 1,
                              ["-simulate", "file=sim/b,num=%d" % nsim, "-depth", str(SIM[0] + 1), "-seed", str(ctx.seed * 104729 + 17)])
     fut["build"] = pool.submit(ctx.build, "wfload")
 
